@@ -1269,6 +1269,10 @@ void sync_exit_locked(World &W, int si, int rc)
 			if (pos != lim)
 				mutated = true;
 		}
+		// an answer that the cache cut short and that was completed by bytes of a later unsolicited PDU (a Serial Notify
+		// supplying the missing tail of an End of Data) is not the cache's answer either
+		if (w.kind == WK_OK && from + w.consumed > x.start_off + x.bytes.size())
+			mutated = true;
 		// (for a mutated answer: what it amounted to must be the cache's data set at the serial its End of Data announced;
 		// the cache's data may have moved on since)
 		const std::set<PfxRec> *hp = &p.data;
